@@ -9,8 +9,8 @@ import numpy as np
 from .. import common, gen, oracle, sexp, translate
 from ..common import Ctx
 
-MODULE = "GotranxProofs.Properties.C01 GotranxProofs.GenValid"
-THEOREMS = ["Gx.GenValid.genRhs_valid", "Gx.GenValid.checkModelWF_sound", "Gx.GenValid.genRhs_correct", "Gx.Kahn.staticOrder_correct", "Gx.GenValid.sorted_facts", "Gx.C01.rhs_sound", "Gx.C01.rhs_progress", "Gx.C01.eval_cond_true", "Gx.C01.eval_cond_false",
+MODULE = "GotranxProofs.Properties.C01 GotranxProofs.GenValid GotranxProofs.ParseRender"
+THEOREMS = ["Gx.ParseRender.parse_render", "Gx.ParseRender.all_levels", "Gx.GenValid.genRhs_valid", "Gx.GenValid.checkModelWF_sound", "Gx.GenValid.genRhs_correct", "Gx.Kahn.staticOrder_correct", "Gx.GenValid.sorted_facts", "Gx.C01.rhs_sound", "Gx.C01.rhs_progress", "Gx.C01.eval_cond_true", "Gx.C01.eval_cond_false",
             "Gx.C01.eval_rel", "Gx.C01.blend_gt", "Gx.C01.blend_lt", "Gx.checkRhs_sound", "Gx.exec_agree",
             "Gx.exec_progress", "Gx.eval_congr", "Gx.C01.meaning_unique", "Gx.C01.meaning_exists", "Gx.solution_unique", "Gx.denote_stable",
             "Gx.denote_equations"]
@@ -187,9 +187,14 @@ def run(ctx: Ctx):
             cfg.chain = ctx.rng.randint(3, 25 if ctx.thorough else 10)
         if k % 5 == 0:
             cfg.depth = 5
-        m = gen.gen_model(ctx.rng, cfg)
+        if k % 9 == 4:
+            # crafted: conditionals and relations as operands inside the branches of a top-level conditional
+            from . import backends as _be
+            case = _be.cond_extra(ctx)
+        else:
+            case = {"text": gen.gen_model(ctx.rng, cfg).text(ctx.rng)}
         with common.time_limit(ctx, 40):
-            check_case(ctx, {"text": m.text(ctx.rng)})
+            check_case(ctx, case)
         if ctx.elapsed() > (1500 if ctx.thorough else 150):
             ctx.notes.append(f"time budget reached after {k + 1} models")
             break
